@@ -36,3 +36,189 @@ Fixpoint surfaced_payloads (net : nclient) (q : list dgram) : list (list N) :=
       let (net', o) := nclient_process_packet net (recv_trunc b) in
       match o with Some p => p :: surfaced_payloads net' t | None => surfaced_payloads net' t end
   end.
+
+(* ------------------------------------------------------------------ *)
+(* additions for Proofs/GlueP.v                                        *)
+(* ------------------------------------------------------------------ *)
+From RenetV Require Import Spec.ConnSpec Spec.NetSpec.
+
+(* lockstep on the two state components the loops thread through *)
+Definition lockstep_n (net : nserver) (rs : server) : Prop :=
+  forall id, sm_mem id (s_conns rs) = true <-> In id (NServer.clients_id net).
+
+(* what one netcode result says about the set of connected ids (stronger than the conclusion of
+   NServerP.events_matched, which is silent about the OTHER ids for connect / disconnect results) *)
+Definition ids_step (net net' : nserver) (r : sresult) : Prop :=
+  match r with
+  | SRConnected id _ _ _ =>
+      ~ In id (NServer.clients_id net) /\
+      forall x, In x (NServer.clients_id net') <-> x = id \/ In x (NServer.clients_id net)
+  | SRDisconnected id _ _ =>
+      In id (NServer.clients_id net) /\
+      forall x, In x (NServer.clients_id net') <-> x <> id /\ In x (NServer.clients_id net)
+  | _ => NServer.clients_id net' = NServer.clients_id net
+  end.
+
+(* the events handle_server_result appends for one netcode result (under lockstep) *)
+Definition result_events (rs : server) (r : sresult) : list event :=
+  match r with
+  | SRConnected id _ _ _ => [EvConnected id]
+  | SRDisconnected id _ _ =>
+      [EvDisconnected id (match srv_disconnect_reason rs id with Some x => x | None => RTransport end)]
+  | _ => []
+  end.
+
+(* the datagrams handle_server_result appends for one netcode result *)
+Definition result_dgrams (r : sresult) : list dgram :=
+  match r with
+  | SRPacketToSend a p | SRConnected _ a _ p | SRDisconnected _ a (Some p) => [(a, p)]
+  | _ => []
+  end.
+
+(* handle_server_result folded over a list of netcode results *)
+Fixpoint apply_results (rs : server) (outs : list dgram) (rl : list sresult) : tres (server * list dgram) :=
+  match rl with
+  | [] => Ok (rs, outs)
+  | r :: t => do y <- handle_server_result r rs outs; let (rs', outs') := y in apply_results rs' outs' t
+  end.
+
+(* the message-layer calls (Spec/ConnSpec.v) handle_server_result makes for one netcode result *)
+Definition result_sops (r : sresult) : list sop :=
+  match r with
+  | SRPayload id p => [SProcess id p]
+  | SRConnected id _ _ _ => [SAdd id]
+  | SRDisconnected id _ _ => [SRemove id]
+  | _ => []
+  end.
+
+(* an event is explained by a netcode result *)
+Definition ev_of_result (r : sresult) (e : event) : Prop :=
+  match r, e with
+  | SRConnected id _ _ _, EvConnected id' => id = id'
+  | SRDisconnected id _ _, EvDisconnected id' _ => id = id'
+  | _, _ => False
+  end.
+
+(* events appended by a transport call, per id: they alternate starting from the opposite of the
+   presence before the call, and the presence after the call is what the last event says *)
+Definition ev_rel (rs rs' : server) (evs : list event) : Prop :=
+  new_events rs rs' evs /\
+  forall id, alternates id (negb (sm_mem id (s_conns rs))) evs /\
+             sm_mem id (s_conns rs') = last_is_connect id evs (sm_mem id (s_conns rs)).
+
+(* the netcode calls of the three loops of NetcodeServerTransport::update *)
+Definition recv_ops (q : list dgram) : list nsop := map (fun d => NSProcess (fst d) (recv_trunc (snd d))) q.
+
+(* the netcode results of the receive loop: a function of the netcode state and the queue alone *)
+Fixpoint server_results (net : nserver) (q : list dgram) : list sresult :=
+  match q with
+  | [] => []
+  | (a, b) :: t =>
+      match NServer.process_packet net a (recv_trunc b) with
+      | Ok (net', r) => r :: server_results net' t
+      | _ => []
+      end
+  end.
+
+Definition payloads_of (rl : list sresult) : list (N * list N) :=
+  flat_map (fun r => match r with SRPayload id p => [(id, p)] | _ => [] end) rl.
+
+(* every (id, payload) handed to the server's message layer by the receive loop *)
+Definition server_surfaced (net : nserver) (q : list dgram) : list (N * list N) := payloads_of (server_results net q).
+
+Definition process_ops (ops : list sop) : list (N * list N) :=
+  flat_map (fun o => match o with SProcess id p => [(id, p)] | _ => [] end) ops.
+
+(* the client's message layer fed a list of payloads *)
+Fixpoint process_all (rc : conn) (ps : list (list N)) : pres conn :=
+  match ps with
+  | [] => Ok rc
+  | p :: t => do rc' <- Conn.process_packet rc p; process_all rc' t
+  end.
+
+(* the netcode client after the receive loop *)
+Fixpoint client_after (net : nclient) (q : list dgram) : nclient :=
+  match q with
+  | [] => net
+  | (a, b) :: t =>
+      if negb (addr_eqb a (cl_server_addr net)) then client_after net t else
+      client_after (fst (nclient_process_packet net (recv_trunc b))) t
+  end.
+
+(* NetcodeClientTransport::update mirrors the netcode status into the message layer before anything else *)
+Definition mirror_status (net : nclient) (rc : conn) : conn :=
+  if NClient.is_connected net then set_connected rc
+  else if NClient.is_connecting net then set_connecting rc else rc.
+
+(* application calls as calls of Spec/ConnSpec.v *)
+Definition app_sop (o : app_op) : sop :=
+  match o with
+  | ASend id ch m => SSend id ch m
+  | ABroadcast ch m => SBroadcast ch m
+  | ABroadcastExcept id ch m => SBroadcastExcept id ch m
+  | ARecv id ch => SRecv id ch
+  | ADisconnect id => SDisconnect id
+  | ADisconnectAll => SDisconnectAll
+  | AGetEvent => SGetEvent
+  | AUpdate dt => SUpdate dt
+  end.
+
+(* how many Connected / Disconnected events about id *)
+Definition count_connects (id : N) (evs : list event) : nat :=
+  length (filter (fun e => (ev_id e =? id) && ev_is_connect e) evs).
+Definition count_disconnects (id : N) (evs : list event) : nat :=
+  length (filter (fun e => (ev_id e =? id) && negb (ev_is_connect e)) evs).
+
+(* ---------- the server side of a world: application calls and transport calls interleaved ---------- *)
+Inductive wop :=
+| WApp (o : app_op)            (* a call on the RenetServer *)
+| WUpdate (dt : N)             (* NetcodeServerTransport::update *)
+| WSend                        (* NetcodeServerTransport::send_packets *)
+| WDisconnectAll               (* NetcodeServerTransport::disconnect_all *)
+| WArrive (d : dgram)          (* a datagram reaches the socket *)
+| WSetMax (m : N).             (* NetcodeServer::set_max_clients through the transport *)
+
+Definition wstep (w : tserver * server) (o : wop) : tres (tserver * server * list dgram) :=
+  let (t, rs) := w in
+  match o with
+  | WApp a => do rs' <- of_pres (app_step rs a); Ok (t, rs', [])
+  | WUpdate dt => tserver_update t rs dt
+  | WSend => tserver_send t rs
+  | WDisconnectAll => tserver_disconnect_all t rs
+  | WArrive d => Ok ({| ts_net := ts_net t; ts_in := ts_in t ++ [d] |}, rs, [])
+  | WSetMax m => Ok ({| ts_net := set_max_clients (ts_net t) m; ts_in := ts_in t |}, rs, [])
+  end.
+
+Fixpoint wrun (w : tserver * server) (ops : list wop) : tres (tserver * server * list (list dgram)) :=
+  match ops with
+  | [] => Ok (fst w, snd w, [])
+  | o :: rest =>
+      do x <- wstep w o;
+      let '(t1, rs1, out) := x in
+      do y <- wrun (t1, rs1) rest;
+      let '(t2, rs2, outs) := y in
+      Ok (t2, rs2, out :: outs)
+  end.
+
+(* the events the application takes out of the queue along a run (WApp AGetEvent), in order *)
+Fixpoint wtaken (w : tserver * server) (ops : list wop) : list event :=
+  match ops with
+  | [] => []
+  | o :: rest =>
+      match wstep w o with
+      | Ok (t1, rs1, _) =>
+          (match o with
+           | WApp AGetEvent => match s_events (snd w) with e :: _ => [e] | [] => [] end
+           | _ => []
+           end) ++ wtaken (t1, rs1) rest
+      | _ => []
+      end
+  end.
+
+(* a connect / disconnect result of the netcode layer shows up as an event *)
+Definition result_reported (r : sresult) (evs : list event) : Prop :=
+  match r with
+  | SRConnected id _ _ _ => In (EvConnected id) evs
+  | SRDisconnected id _ _ => exists x, In (EvDisconnected id x) evs
+  | _ => True
+  end.
